@@ -17,11 +17,21 @@
 //	                          Z = one such Initial followed by k-1 undecryptable 0-RTT packets,
 //	                          G = one such Initial followed by (k-1)*pad bytes of garbage
 //	badinitial                the "client" sends a well-protected small Initial packet carrying a frame that is not allowed (forces a local close)
+//	                          H = one such Initial followed by k-1 FORGED Handshake packets (valid header, the connection's ID, a
+//	                              payload of 40+pad bytes that no key of this connection sealed),
+//	                          D = one such Initial followed by k-1 byte-identical copies of it (duplicates),
+//	                          Y = k undecryptable 0-RTT packets and nothing else (no reply is provoked)
+//	forgedhs <n> <o|s>        the "client" sends ONE forged Handshake packet with n payload bytes, addressed to the connection's
+//	                          original destination connection ID (o: all a spoofing attacker knows) or to the server's own (s)
+//	release                   the client datagrams that the router has been holding back (those beyond <deliverFirst>) are
+//	                          delivered now, in order, and later ones pass: everything injected in between ARRIVED EARLIER
 //	closeserver               Listener.Close(): handshaking connections are refused
 //
-// result: `ok ev=<events since the previous op> | conns=<n> hr=<bytesReceived> hs=<bytesSent> hv=<validated>` (the server
-// connection's own accounting, read through a hook) with events iN (N bytes delivered to the server; suffix
-// H = contains a Handshake packet, T = an Initial carrying a token), oN (the server wrote N bytes).
+// result: `ok ev=<events since the previous op> | conns=<n> hr=<bytesReceived> hs=<bytesSent> hv=<validated> pr=<packets>`
+// (the server connection's own accounting, read through a hook; pr = ConnectionStats().PacketsReceived) with events iN
+// (N bytes delivered to the server; suffix H = a datagram of the REAL client that contains a Handshake packet, T = an
+// Initial carrying a token, p<k> = k long-header packets parsed in it, J = injected by the driver), oN (the server wrote
+// N bytes).
 package ampe2e
 
 import (
@@ -85,6 +95,7 @@ type wireRouter struct {
 	dropHS       bool
 	dropMask     uint64
 	c2s          int
+	held         []simnet.Packet
 	// learned from the traffic
 	serverSCID protocol.ConnectionID
 	origDCID   protocol.ConnectionID
@@ -94,12 +105,13 @@ type wireRouter struct {
 
 func (r *wireRouter) AddNode(a net.Addr, c simnet.PacketReceiver) { r.inner.AddNode(a, c) }
 
-func classify(data []byte) (hasHS, hasToken bool, first *wire.Header) {
+func classify(data []byte) (hasHS, hasToken bool, first *wire.Header, npk int) {
 	for len(data) > 0 && wire.IsLongHeaderPacket(data[0]) {
 		hdr, _, rest, err := wire.ParsePacket(data)
 		if err != nil {
 			break
 		}
+		npk++
 		if first == nil {
 			first = hdr
 		}
@@ -111,7 +123,21 @@ func classify(data []byte) (hasHS, hasToken bool, first *wire.Header) {
 		}
 		data = rest
 	}
+	if len(data) > 0 {
+		npk++ // a short-header packet (or trailing bytes) ends the datagram
+	}
 	return
+}
+
+func evIn(n int, hs, tok bool, npk int) string {
+	sfx := ""
+	if hs {
+		sfx += "H"
+	}
+	if tok {
+		sfx += "T"
+	}
+	return fmt.Sprintf("i%d%sp%d", n, sfx, npk)
 }
 
 func (r *wireRouter) SendPacket(p simnet.Packet) error {
@@ -120,23 +146,23 @@ func (r *wireRouter) SendPacket(p simnet.Packet) error {
 	if toServer {
 		idx := r.c2s
 		r.c2s++
-		hs, tok, first := classify(p.Data)
-		drop := idx >= r.deliverFirst || (r.dropHS && hs) || (idx < 64 && r.dropMask&(1<<uint(idx)) != 0)
+		hs, tok, first, npk := classify(p.Data)
+		drop := (r.dropHS && hs) || (idx < 64 && r.dropMask&(1<<uint(idx)) != 0)
 		if first != nil && r.origDCID.Len() == 0 && first.Type == protocol.PacketTypeInitial {
 			r.origDCID, r.clientSCID, r.version = first.DestConnectionID, first.SrcConnectionID, first.Version
+		}
+		if !drop && idx >= r.deliverFirst {
+			// held back (lost, unless a `release` follows)
+			if len(r.held) < 64 {
+				r.held = append(r.held, simnet.Packet{To: p.To, From: p.From, Data: append([]byte(nil), p.Data...)})
+			}
+			drop = true
 		}
 		if drop {
 			r.mu.Unlock()
 			return nil
 		}
-		sfx := ""
-		if hs {
-			sfx += "H"
-		}
-		if tok {
-			sfx += "T"
-		}
-		r.ev = append(r.ev, fmt.Sprintf("i%d%s", len(p.Data), sfx))
+		r.ev = append(r.ev, evIn(len(p.Data), hs, tok, npk))
 	} else {
 		r.ev = append(r.ev, fmt.Sprintf("o%d", len(p.Data)))
 		if len(p.Data) > 0 && wire.IsLongHeaderPacket(p.Data[0]) {
@@ -152,9 +178,26 @@ func (r *wireRouter) SendPacket(p simnet.Packet) error {
 // inject delivers a datagram to the server as if it came from the client (not subject to the drop policy)
 func (r *wireRouter) inject(data []byte, tag string) {
 	r.mu.Lock()
-	r.ev = append(r.ev, fmt.Sprintf("i%d%s", len(data), tag))
+	r.ev = append(r.ev, fmt.Sprintf("i%d%sJ", len(data), tag))
 	r.mu.Unlock()
 	r.inner.SendPacket(simnet.Packet{To: serverAddr, From: clientAddr, Data: data})
+}
+
+// release delivers the held-back client datagrams, oldest first, and stops holding
+func (r *wireRouter) release() int {
+	r.mu.Lock()
+	held := r.held
+	r.held = nil
+	r.deliverFirst = 1 << 30
+	for _, p := range held {
+		hs, tok, _, npk := classify(p.Data)
+		r.ev = append(r.ev, evIn(len(p.Data), hs, tok, npk))
+	}
+	r.mu.Unlock()
+	for _, p := range held {
+		r.inner.SendPacket(p)
+	}
+	return len(held)
 }
 
 func (r *wireRouter) drain() string {
@@ -178,11 +221,36 @@ type runner struct {
 	started  bool
 	closed   bool
 	injPN    protocol.PacketNumber
+	script   []string // scripted case: the remaining ops
 }
 
 func newRunner(r *vh.Rand) vh.Runner { return &runner{} }
 
 func (rn *runner) GenOp(r *vh.Rand, i int) string {
+	if i == 0 && r.Chance(12) {
+		// packets that arrive BEFORE the connection has the keys for them (the rest of the ClientHello is still held back),
+		// then the held-back datagrams: buffered packets are handled a second time
+		rn.script = []string{"run 100"}
+		for n := 1 + r.Intn(3); n > 0; n-- {
+			switch r.Intn(4) {
+			case 0:
+				rn.script = append(rn.script, fmt.Sprintf("forgedhs %d %s", []int64{40, 300, 1150}[r.Intn(3)], []string{"o", "s"}[r.Intn(2)]))
+			case 1:
+				rn.script = append(rn.script, fmt.Sprintf("coalesced Y %d %d", 1+r.Intn(6), []int{0, 20, 150}[r.Intn(3)]))
+			case 2:
+				rn.script = append(rn.script, fmt.Sprintf("garbage %d", []int64{40, 400, 1200}[r.Intn(3)]))
+			default:
+				rn.script = append(rn.script, fmt.Sprintf("run %d", []int64{1, 100, 1000}[r.Intn(3)]))
+			}
+		}
+		rn.script = append(rn.script, "release", "run 100", "run 1000", "run 3000")
+		return fmt.Sprintf("start %d 0 1 %d 0", r.Intn(2), r.Intn(2))
+	}
+	if len(rn.script) > 0 {
+		op := rn.script[0]
+		rn.script = rn.script[1:]
+		return op
+	}
 	if i == 0 {
 		long := 1
 		if r.Chance(20) {
@@ -209,8 +277,14 @@ func (rn *runner) GenOp(r *vh.Rand, i int) string {
 	if i == 1 {
 		return "run 1000"
 	}
-	if r.Chance(22) {
-		return fmt.Sprintf("coalesced %s %d %d", []string{"I", "I", "Z", "G"}[r.Intn(4)], 2+r.Intn(5), []int{0, 0, 20, 150}[r.Intn(4)])
+	if r.Chance(30) {
+		return fmt.Sprintf("coalesced %s %d %d", []string{"I", "I", "Z", "G", "H", "H", "D", "Y"}[r.Intn(8)], 2+r.Intn(5), []int{0, 0, 20, 150}[r.Intn(4)])
+	}
+	if r.Chance(14) {
+		return fmt.Sprintf("forgedhs %d %s", []int64{24, 40, 300, 1150}[r.Intn(4)], []string{"o", "s"}[r.Intn(2)])
+	}
+	if r.Chance(4) {
+		return "release"
 	}
 	switch r.Pick(45, 15, 10, 15, 15) {
 	case 0:
@@ -233,7 +307,7 @@ func (rn *runner) res(head string) string {
 	if hv {
 		v = 1
 	}
-	return fmt.Sprintf("%s ev=%s | conns=%d hr=%d hs=%d hv=%d", head, rn.rt.drain(), n, hr, hs, v)
+	return fmt.Sprintf("%s ev=%s | conns=%d hr=%d hs=%d hv=%d pr=%d", head, rn.rt.drain(), n, hr, hs, v, quic.VerifAmpServerConnPackets(rn.str))
 }
 
 func (rn *runner) Exec(op string) string {
@@ -344,7 +418,7 @@ func (rn *runner) Exec(op string) string {
 			rn.injPN++
 			data = smallInitial(odcid, scid, cscid, v, ping, 1000+rn.injPN)
 			for i := 1; i < k; i++ {
-				data = append(data, zeroRTTJunk(scid, cscid, v, 40+pad)...)
+				data = append(data, longJunk(protocol.PacketType0RTT, scid, cscid, v, 40+pad)...)
 			}
 		case "G":
 			rn.injPN++
@@ -352,10 +426,51 @@ func (rn *runner) Exec(op string) string {
 			for i := 0; i < (k-1)*pad; i++ {
 				data = append(data, byte(i*13+5)&0x3f)
 			}
+		case "H":
+			rn.injPN++
+			data = smallInitial(odcid, scid, cscid, v, ping, 1000+rn.injPN)
+			for i := 1; i < k; i++ {
+				data = append(data, longJunk(protocol.PacketTypeHandshake, scid, cscid, v, 40+pad)...)
+			}
+		case "Y":
+			for i := 0; i < k; i++ {
+				data = append(data, longJunk(protocol.PacketType0RTT, scid, cscid, v, 40+pad)...)
+			}
+		case "D":
+			rn.injPN++
+			one := smallInitial(odcid, scid, cscid, v, ping, 1000+rn.injPN)
+			for i := 0; i < k; i++ {
+				data = append(data, one...)
+			}
 		default:
 			return "bad-op"
 		}
 		rn.rt.inject(data, "")
+		return rn.res("ok")
+	case "forgedhs":
+		if len(f) != 3 {
+			return "bad-op"
+		}
+		rn.rt.mu.Lock()
+		scid, odcid, cscid, v := rn.rt.serverSCID, rn.rt.origDCID, rn.rt.clientSCID, rn.rt.version
+		rn.rt.mu.Unlock()
+		n := int(vh.Atoi64(f[1]))
+		if n < 20 || n > 1300 {
+			return "bad-op"
+		}
+		dst := scid
+		if f[2] == "o" {
+			dst = odcid
+		}
+		if dst.Len() == 0 {
+			return rn.res("skip")
+		}
+		rn.rt.inject(longJunk(protocol.PacketTypeHandshake, dst, cscid, v, n), "")
+		return rn.res("ok")
+	case "release":
+		if rn.rt.release() == 0 {
+			return rn.res("skip")
+		}
 		return rn.res("ok")
 	case "closeserver":
 		if rn.closed {
@@ -389,10 +504,10 @@ func smallInitial(odcid, dcid, scid protocol.ConnectionID, v protocol.Version, p
 	return raw
 }
 
-// zeroRTTJunk is a 0-RTT long-header packet for this connection whose payload cannot be decrypted
-func zeroRTTJunk(dcid, scid protocol.ConnectionID, v protocol.Version, n int) []byte {
+// longJunk is a 0-RTT / Handshake long-header packet for this connection whose payload no key of the connection sealed
+func longJunk(typ protocol.PacketType, dcid, scid protocol.ConnectionID, v protocol.Version, n int) []byte {
 	hdr := &wire.ExtendedHeader{
-		Header: wire.Header{Type: protocol.PacketType0RTT, DestConnectionID: dcid, SrcConnectionID: scid, Version: v,
+		Header: wire.Header{Type: typ, DestConnectionID: dcid, SrcConnectionID: scid, Version: v,
 			Length: protocol.ByteCount(4 + n)},
 		PacketNumber: 7, PacketNumberLen: protocol.PacketNumberLen4,
 	}
